@@ -396,6 +396,8 @@ class Sym:
         self.local_fns: dict[str, ast.FunctionDef] = {}
         self._pending: list[Term] = []
         self._exits: list[list] = []
+        self._mutated = _mutated_names(f.node)
+        self._n_obj = itertools.count()
         env: dict[str, Term] = {}
         a = f.node.args
         for p in a.posonlyargs + a.args + a.kwonlyargs + ([a.vararg] if a.vararg else []) + ([a.kwarg] if a.kwarg else []):
@@ -569,9 +571,16 @@ class Sym:
             kind = {"ListComp": "list", "SetComp": "set", "GeneratorExp": "gen"}[type(e).__name__]
         return ("comp", kind, elt, tuple(gens))
 
+    def _fresh(self, name: str, val: Term) -> Term:
+        """A local that is mutated in place later keeps its identity: two arrays created by the same expression
+        (``amp, det = zeros(n), zeros(n)``) are different objects.  They are numbered in binding order."""
+        if name in self._mutated and val[0] in ("call", "list", "dict", "set", "comp", "tuple") and self.depth == 0:
+            return ("obj", next(self._n_obj), val)
+        return val
+
     def _bind_target(self, tgt: ast.AST, val: Term, env: dict) -> None:
         if isinstance(tgt, ast.Name):
-            env[tgt.id] = val
+            env[tgt.id] = self._fresh(tgt.id, val)
         elif isinstance(tgt, (ast.Tuple, ast.List)):
             for i, x in enumerate(tgt.elts):
                 if isinstance(x, ast.Starred):
@@ -787,8 +796,8 @@ class Sym:
                 merged[k] = mk_ifexp(c, o1.env.get(k, env.get(k, UNDEF)), o2.env.get(k, env.get(k, UNDEF)))
             # what each branch learnt on the way (early exits inside it) survives as a disjunction
             base = set(conj_of(path))
-            x1 = [l for l in conj_of(o1.path) if l not in base and l != c]
-            x2 = [l for l in conj_of(o2.path) if l not in base and l != mk_not(c)]
+            x1 = [l for l in conj_of(o1.path) if l not in base and l != c and l not in conj_of(c)]
+            x2 = [l for l in conj_of(o2.path) if l not in base and l != mk_not(c) and l not in conj_of(mk_not(c))]
             after = path
             if x1 or x2:
                 after = mk_and([path, mk_or([mk_and([c] + x1), mk_and([mk_not(c)] + x2)])])
@@ -895,6 +904,7 @@ class Sym:
 
     def _assign(self, tgt: ast.AST, v: Term, st: ast.stmt, env: dict, path: Term, loops: tuple) -> None:
         if isinstance(tgt, ast.Name):
+            v = self._fresh(tgt.id, v)
             env[tgt.id] = v
             self._record("assign", st, ("name", tgt.id), v, path, loops)
         elif isinstance(tgt, (ast.Tuple, ast.List)):
@@ -940,7 +950,8 @@ class Sym:
         e2 = dict(env)
         # containers being filled: empty list/dict/set literal (or list()/dict()/set()) defined before the loop
         building = {}
-        for k, v in env.items():
+        for k, v0 in env.items():
+            v = v0[2] if v0[0] == "obj" else v0
             if v in (("list",), ("set",), ("dict",), ("call", ("name", "list"), (), ()), ("call", ("name", "dict"), (), ()), ("call", ("name", "set"), (), ())):
                 kind = v[0] if v[0] != "call" else v[1][1]
                 building[k] = kind
@@ -975,9 +986,13 @@ class Sym:
             else:
                 out[k] = ("loop", k, env[k], b if b is not None else UNDEF)
         if st.orelse:
-            oo = self.block(st.orelse, out, path, loops)
+            # the else block runs only when the loop was not left by `break`: keep both values
+            before = dict(out)
+            oo = self.block(st.orelse, dict(out), path, loops)
             if oo.env is not None:
-                out = oo.env
+                for k, v in oo.env.items():
+                    if before.get(k) != v:
+                        out[k] = ("loopelse", before.get(k, UNDEF), v)
         ret = ("loopexit", it, o.ret, FALL) if o.ret is not None else None
         return Outcome(out, ret)
 
@@ -1024,6 +1039,36 @@ def _strip_raises(t: Term) -> tuple[Term, list]:
     if cond == FALSE:
         return t, []
     return r, list(conj_of(cond))
+
+
+MUTATING_METHODS = {"append", "extend", "insert", "add", "update", "pop", "remove", "clear", "sort", "reverse", "setdefault", "discard", "popitem", "appendleft"}
+
+
+def _mutated_names(fnode: ast.AST) -> set:
+    """Local names whose object is modified in place somewhere in the function."""
+    out = set()
+
+    def base(t: ast.AST) -> Optional[str]:
+        while isinstance(t, (ast.Subscript, ast.Attribute)):
+            t = t.value
+        return t.id if isinstance(t, ast.Name) else None
+
+    for n in ast.walk(fnode):
+        if isinstance(n, (ast.Assign, ast.AugAssign, ast.AnnAssign, ast.Delete)):
+            tg = n.targets if isinstance(n, (ast.Assign, ast.Delete)) else [n.target]
+            for t in tg:
+                for x in (t.elts if isinstance(t, (ast.Tuple, ast.List)) else [t]):
+                    if isinstance(x, (ast.Subscript, ast.Attribute)):
+                        b = base(x)
+                        if b:
+                            out.add(b)
+        elif isinstance(n, ast.Call) and isinstance(n.func, ast.Attribute) and n.func.attr in MUTATING_METHODS:
+            b = base(n.func.value)
+            if b and isinstance(n.func.value, ast.Name):
+                out.add(b)
+    out.discard("self")
+    out.discard("cls")
+    return out
 
 
 def _const_like(node: ast.AST) -> bool:
